@@ -283,6 +283,7 @@ def replay_history(rng, tier, rtcp=False, n_ssrc=None, steps=None, common_roc=No
             L += [f"setroc 1 {H(s)} {H(common_roc)}", f"setroc 2 {H(s)} {H(common_roc)}", f"# C {s:x} {common_roc:x}"]
     eff_ws = 128 if ws == 0 else ws
     hi = {s: None for s in ssrcs}           # sender's highest index
+    sgaps = {s: [] for s in ssrcs}          # indices the sender skipped (candidates for a late send)
     pool = {s: [] for s in ssrcs}           # (line, idx)
     start = {s: rng.choice([0, 1, 100, 32767, 32768, 65000, 65535]) for s in ssrcs}
     steps = steps or (80 if tier == "quick" else 600)
@@ -311,12 +312,21 @@ def replay_history(rng, tier, rtcp=False, n_ssrc=None, steps=None, common_roc=No
                 L.append(pkt_op("unprotect_rtcp", 2, f"@{line:x}", cap=100)); L.append(f"# D {s:x} {idx:x} {line:x}")
         else:
             if not pool[s] or rng.random() < 0.45:
-                if hi[s] is None:
+                late = [g for g in sgaps[s] if hi[s] is not None and 0 < hi[s] - g < min(eff_ws, 60)]
+                if late and not wildcard and rng.random() < 0.2:
+                    # the SENDER is handed a sequence number it skipped a moment ago (reordering before srtp_protect; the index may lie
+                    # before a sequence wrap the sender has already passed)
+                    idx = late[-1]; sgaps[s].remove(idx)
+                elif hi[s] is None:
                     idx = start[s] + ((common_roc or 0) << 16)
+                    hi[s] = idx
                 else:
                     # the sender's own estimator follows a jump only below 2^15 (the property's premise on both sides)
-                    idx = hi[s] + min(rng.choice([1, 1, 1, 2, 3, eff_ws - 1, eff_ws, eff_ws + 1, 5000, 30000]), 32767)
-                hi[s] = idx
+                    step = min(rng.choice([1, 1, 1, 2, 3, eff_ws - 1, eff_ws, eff_ws + 1, 5000, 30000]), 32767)
+                    if step in (2, 3):
+                        sgaps[s] += [hi[s] + d for d in range(1, step)]; sgaps[s] = sgaps[s][-8:]
+                    idx = hi[s] + step
+                    hi[s] = idx
                 pkt = rtp_packet(s, idx & 0xffff, payload=idx.to_bytes(6, "big"))
                 L.append(pkt_op("protect", 1, pkt, extra=40))
                 pool[s].append((len(L), idx)); L.append(f"# S {s:x} {idx:x}")
